@@ -1092,7 +1092,7 @@ class Gen:
         if args and ps[0].get("mut") != "var" and self.ch(0.18):
             # `x |> f(rest)` = `f(x, rest)`; a tuple on the left is unpacked into the leading parameters
             simple = lambda t: t in (INT, FLOAT, BOOL, STRING, CHAR, LONG, DOUBLE)
-            if len(args) >= 2 and ps[1].get("mut") != "var" and simple(ps[0]["ty"]) and simple(ps[1]["ty"]) and self.ch(0.4):
+            if len(args) >= 2 and ps[1].get("mut") != "var" and simple(ps[0]["ty"]) and simple(ps[1]["ty"]) and self.ch(0.7):
                 self.use("pipe:tuple")
                 return ["pipe", ["tuple", [args[0], args[1]], [ps[0]["ty"], ps[1]["ty"]]], ["var", f["name"]], args[2:]]
             self.use("pipe")
